@@ -100,7 +100,7 @@ def compare(S, ctx, inst, got, monitor, name, other=None, rel=None):
             nu, nv = math.hypot(*cv[2]), math.hypot(*cv[3])
             ecc = max(nu, nv) / max(min(nu, nv), 1e-300)
             size = max(nu, nv) * inst["amp"]
-        bound = rel * (S_abs + inst["terr"] + inst["amp"] * S_loc) * max(1.0, min(cond, 1e6) / 100.0) + 4e-9 * size * max(1.0, ecc / 100.0)
+        bound = rel * (S_abs + inst["terr"] + inst["amp"] * S_loc) * max(1.0, min(cond, 1e6) / 100.0) + 4e-9 * size * max(1.0, ecc / 100.0) + (8 * 2.3e-16 * S_abs * ecc * ecc if cv[0] == "E" else 0.0)
         if k == "A" and cv[0] == "E":
             # arcs of path data: the centre is solved from the end points (sqrt of cancelling noise)
             bound += 1e-6 * size
